@@ -2579,9 +2579,11 @@ bool unitsAreEquivalent(const ModelPtr &model,
     unitMap.erase("dimensionless");
     static const std::regex fullStopAtEndRegex("\\.$");
 
+    // The exponents of both variables are added up in one accumulator: allow for the rounding of that sum.
+    static const double exponentTolerance = 1.0e-9;
     bool status = true;
     for (const auto &basePair : unitMap) {
-        if (basePair.second != 0.0) {
+        if (std::fabs(basePair.second) > exponentTolerance) {
             std::string num = std::to_string(basePair.second);
             num.erase(num.find_last_not_of('0') + 1, num.length());
             num = std::regex_replace(num, fullStopAtEndRegex, "");
